@@ -130,6 +130,9 @@ func main() {
 		defer f.Close()
 		w = f
 	}
+	if *out != "" {
+		curOpFile = *out + ".cur"
+	}
 	bw := bufio.NewWriterSize(w, 1<<20)
 	defer bw.Flush()
 	g := &G{rng: NewRng(*seed), w: bw, tier: *tier, hist: map[string]int{}}
@@ -171,8 +174,15 @@ func (g *G) run(op string) {
 	if !ok {
 		panic("unknown op " + f[0])
 	}
+	// the op in flight is left on disk: when the implementation takes the whole process down (fatal error, a panic in a
+	// goroutine of its own) the check reads it back and re-runs it alone
+	if curOpFile != "" {
+		_ = os.WriteFile(curOpFile, []byte(op+"\n"), 0o644)
+	}
 	g.emit(op, protect(func() string { return fn(f[1:]) }))
 }
+
+var curOpFile string
 
 func runReplay(g *G, path string) error {
 	f, err := os.Open(path)
